@@ -125,7 +125,7 @@ static const lay_t LAYS[] = {
 #endif
 #define NLAYS ((int)(sizeof LAYS / sizeof LAYS[0]))
 #if VLAYSET == 1 || VLAYSET == 3
-#define ZT " [stream with zero-length RLE runs]"       /* lets the known finding F-RLE-ZERORUN be recognised by its message */
+#define ZT " [stream with zero-length RLE runs]"       /* finding F-RLE-ZERORUN (fixed by /repo 37176cd): its signature matches this tag */
 #else
 #define ZT ""
 #endif
